@@ -101,7 +101,7 @@ func CheckCLI(prop string, c *Case, proc ProcessFunc, cov *Cov) []*Violation {
 	err, pan := callProcess(proc, sr, w)
 	if cov != nil {
 		cov.Steps += clk.Now()
-		cov.Faults.Add(sr.Stats)
+		cov.NoteReader(sr)
 		cov.Faults.Writes += w.Writes
 		cov.Evaluations++
 	}
